@@ -19,4 +19,3 @@ func goroot() string {
 	}
 	return runtime.GOROOT()
 }
-
